@@ -1,5 +1,56 @@
 package c08
 
+// floors: about half of the minimum observed over VERIF_SEED=1..5 on the unchanged tree
+// (quick: 160 cases = 40 per lane). The thorough tier runs 20 times as many cases with larger
+// per-case workloads; its floors are 15 times the quick ones.
 func floors(tier string) map[string]int64 {
-	return map[string]int64{}
+	q := map[string]int64{
+		// account lane
+		"acct_honest_accepted":               100,
+		"acct_mutants":                       20000,
+		"acct_signature_forms":               5000,
+		"acct_other_sender":                  3500,
+		"acct_sender_unrecoverable":          4000,
+		"acct_same_sender_rejected_by_basic": 6000,
+		"acct_cut_without_sender_signature":  20,
+		"foreign_chain_forms":                1300,
+		"foreign_self_check_ok":              80,
+		// cache lane
+		"object_cache_checks":                80,
+		"cache_block_verdicts":               280,
+		"cache_warm_hit_blocks_accepted":     20,
+		"cache_other_signer_blocks_accepted": 20,
+		"cache_mutant_blocks_rejected":       100,
+		"cache_commits_observed":             20,
+		// confidential lane
+		"ownership_scans":                 1400,
+		"ownership_owner_ok":              280,
+		"ownership_non_owner_blind":       1100,
+		"forged_spend_rejected":           80,
+		"utxo_honest_accepted":            100,
+		"utxo_honest_ain-uout":            20,
+		"utxo_honest_uin-uout-ring1":      40,
+		"utxo_honest_uin-uout-ringN":      20,
+		"utxo_mutants":                    21000,
+		"utxo_rejected_by_basic":          18000,
+		"utxo_signature_forms":            1100,
+		"utxo_rebalanced_pseudoouts":      40,
+		"utxo_fee_compensated":            80,
+		"utxo_dead_field_mutant_accepted": 1500,
+		// signature lane
+		"sig_recover_calls":               9600,
+		"sig_recover_valid":               5000,
+		"sig_recover_invalid":             4500,
+		"sig_verify_calls":                9600,
+		"sig_tx_from_calls":               8000,
+		"sig_tx_sender_matches_reference": 2900,
+	}
+	if tier != "thorough" {
+		return q
+	}
+	t := map[string]int64{}
+	for k, v := range q {
+		t[k] = v * 15
+	}
+	return t
 }
